@@ -20,6 +20,9 @@ use reactive_graph::{
     wrappers::read::Signal,
 };
 use send_wrapper::SendWrapper;
+#[cfg(leptos_verif)]
+use crate::renderer::native_dom::JsValue;
+#[cfg(not(leptos_verif))]
 use wasm_bindgen::JsValue;
 #[cfg(feature = "reactive_stores")]
 use {
@@ -485,7 +488,44 @@ pub trait ChangeEvent {
         Self: Sized;
 }
 
+#[cfg(not(leptos_verif))]
 impl ChangeEvent for web_sys::Element {
+    fn attach_change_event<T, W>(
+        &self,
+        key: &str,
+        write_signal: W,
+    ) -> RemoveEventHandler<Self>
+    where
+        T: FromEventTarget + AttributeValue + 'static,
+        W: Set<Value = T> + 'static,
+    {
+        if key == "group" {
+            let handler = move |evt| {
+                let checked = event_target_checked(&evt);
+                if checked {
+                    write_signal.try_set(T::from_event_target(&evt));
+                }
+            };
+
+            on::<_, _>(change, handler).attach(self)
+        } else {
+            let handler = move |evt| {
+                write_signal.try_set(T::from_event_target(&evt));
+            };
+
+            if key == "checked" || self.tag_name() == "SELECT" {
+                on::<_, _>(change, handler).attach(self)
+            } else {
+                on::<_, _>(input, handler).attach(self)
+            }
+        }
+    }
+}
+
+/// Native twin of the impl above: the listener is stored on the native element. It cannot be
+/// fired natively, because it reads `event.target`.
+#[cfg(leptos_verif)]
+impl ChangeEvent for Element {
     fn attach_change_event<T, W>(
         &self,
         key: &str,
@@ -532,6 +572,20 @@ impl GetValue<String> for web_sys::Element {
 }
 
 impl GetValue<bool> for web_sys::Element {
+    fn get_value(&self) -> bool {
+        self.get_attribute("checked").unwrap_or_default() == "true"
+    }
+}
+
+#[cfg(leptos_verif)]
+impl GetValue<String> for Element {
+    fn get_value(&self) -> String {
+        self.get_attribute("value").unwrap_or_default()
+    }
+}
+
+#[cfg(leptos_verif)]
+impl GetValue<bool> for Element {
     fn get_value(&self) -> bool {
         self.get_attribute("checked").unwrap_or_default() == "true"
     }
